@@ -100,4 +100,17 @@ PROPS = {
                       "(loop invariant + telescoping lemma proved by induction). Mean and output layout are a bounded stand-in.",
         "level_note": "Assumed: numpy cumsum / mean as in libspec; the FITPACK contracts of C14; yaml.dump round trip (bounded).",
     },
+    "C18": {
+        "targets": ["spowtd.simulate_recession:compute_recession_curve", "spowtd.specific_yield:SpecificYield.__call__",
+                    "spowtd.spline:Spline.__call__", "lemma:telescoping"],
+        "bounded": [{"run": "bounded.simulate_checks:run_C18",
+                     "what": "bounded stand-in for the corollaries (direction, reversal, water balance at zero curvature), the mean, "
+                             "the ET query and the tabulated output of dump_simulated_recession (real functions, tables in a "
+                             "database built from the real schema, time-varying ET)"}],
+        "level_text": "Unbounded proof that compute_recession_curve returns values whose pairwise differences are Q(z_j) - Q(z_i), Q the "
+                      "antiderivative (assumed contract of quad) of the function handed to quad, that this function equals "
+                      "Sy(z) / (-ET - curvature T(z)) at every level (ghost cut, real arithmetic) and that its denominator never "
+                      "vanishes. The command-level clauses (ET average, units and order of the table, mean) are a bounded stand-in.",
+        "level_note": "Assumed: quad returns the exact integral; transmissivity is any positive function; floats as reals.",
+    },
 }
